@@ -9,9 +9,9 @@ HOOK_COMMITS = subprocess.run(["git", "-C", "/repo", "log", "--format=%h %s", "-
 # property -> (engine, level, technique, text, note, design_ref, has_thorough)
 CHECKS = {
     "C01": ("E1-small-scope", "exploration",
-            "exhaustive small-scope enumeration (query corpus x databases x engines x statistics), differential oracle optimizer off vs on",
+            "exhaustive small-scope enumeration (query corpus x databases x engines x statistics), differential oracle optimizer off vs on; plus exhaustive per-rule check: every rewrite rule x every atom plan that matches it x every database, both sides evaluated on the real executors",
             "Every query of a fixed, simplest-first corpus is executed on every database instance, engine and statistics assignment with the optimizer disabled and enabled; the two answers must agree. The enumeration is complete for the stated corpus and data domain; it is a bounded forall, not a proof.",
-            "Bounded: qgen corpus (~600 quick / ~1000 thorough queries), <=5-row tables over {NULL,0..4}; unoptimised plan is the reference; queries whose unoptimised plan cannot run are not comparable (counted as skipped). Per-rule e-class checking (E5) is reported separately when built.",
+            "Bounded: qgen corpus (~600 quick / ~1000 thorough queries), <=5-row tables over {NULL,0..4}; unoptimised plan is the reference; queries whose unoptimised plan cannot run are not comparable (counted as skipped). The per-rule pass (E5) applies each of the optimizer's rewrite rules once, in isolation, to every plan of a fixed atom list and compares original and rewritten plan on every database; rules that never fire on the atom list are reported as uncovered in the evidence, not as verified.",
             "DESIGN.md §4 C01"),
     "C02": ("E1-small-scope", "exploration",
             "exhaustive small-scope enumeration (query corpus x databases x engines) against an independent reference implementation (SQLite)",
